@@ -57,7 +57,8 @@ Record xstate := {
   fd_open : bool; sending : bool; receiving : bool; compression : bool;
   sock_open : bool;
   out_locked : bool;   (* ghost: rfbWriteExact returned with cl->outputMutex still held (sock == -1 path) *)
-  lost_fds : Z         (* ghost: descriptors overwritten in cl->fileTransfer.fd while still open *)
+  lost_fds : Z;        (* ghost: descriptors overwritten in cl->fileTransfer.fd while still open *)
+  dir_open : bool      (* ghost: a directory stream of rfbSendDirContent is open *)
 }.
 
 Record world := {
@@ -106,22 +107,30 @@ Definition fs_void (op : fs_op) : M unit := emit (Fs op).
 
 Definition upd_sock (b : bool) (s : xstate) : xstate :=
   {| fd_open := fd_open s; sending := sending s; receiving := receiving s; compression := compression s; sock_open := b;
-     out_locked := out_locked s; lost_fds := lost_fds s |}.
+     out_locked := out_locked s; lost_fds := lost_fds s; dir_open := dir_open s |}.
 Definition upd_fd (b : bool) (s : xstate) : xstate :=
   {| fd_open := b; sending := sending s; receiving := receiving s; compression := compression s; sock_open := sock_open s;
-     out_locked := out_locked s; lost_fds := lost_fds s |}.
+     out_locked := out_locked s; lost_fds := lost_fds s; dir_open := dir_open s |}.
 Definition upd_flags (snd rcv : bool) (s : xstate) : xstate :=
   {| fd_open := fd_open s; sending := snd; receiving := rcv; compression := compression s; sock_open := sock_open s;
-     out_locked := out_locked s; lost_fds := lost_fds s |}.
+     out_locked := out_locked s; lost_fds := lost_fds s; dir_open := dir_open s |}.
 Definition upd_comp (c : bool) (s : xstate) : xstate :=
   {| fd_open := fd_open s; sending := sending s; receiving := receiving s; compression := c; sock_open := sock_open s;
-     out_locked := out_locked s; lost_fds := lost_fds s |}.
+     out_locked := out_locked s; lost_fds := lost_fds s; dir_open := dir_open s |}.
 Definition upd_locked (s : xstate) : xstate :=
   {| fd_open := fd_open s; sending := sending s; receiving := receiving s; compression := compression s; sock_open := sock_open s;
-     out_locked := true; lost_fds := lost_fds s |}.
+     out_locked := true; lost_fds := lost_fds s; dir_open := dir_open s |}.
+Definition upd_dir (d : bool) (s : xstate) : xstate :=
+  {| fd_open := fd_open s; sending := sending s; receiving := receiving s; compression := compression s; sock_open := sock_open s;
+     out_locked := out_locked s; lost_fds := lost_fds s; dir_open := d |}.
 Definition upd_lost (s : xstate) : xstate :=
   {| fd_open := fd_open s; sending := sending s; receiving := receiving s; compression := compression s; sock_open := sock_open s;
-     out_locked := out_locked s; lost_fds := lost_fds s + 1 |}.
+     out_locked := out_locked s; lost_fds := lost_fds s + 1; dir_open := dir_open s |}.
+
+(* closedir(dirp) *)
+Definition close_dir : M unit := fs_void FClosedir ;;; s <- get_st ;; set_st (upd_dir false s).
+(* opendir succeeded *)
+Definition mark_dir_open : M unit := s <- get_st ;; set_st (upd_dir true s).
 
 (* before cl->fileTransfer.fd = open(...): a descriptor that is still open is closed (fix 4d56b95;
    the sending/receiving flags are left as they are) *)
@@ -270,7 +279,7 @@ Fixpoint dir_loop (fuel : nat) (cfg : config) (path : str) : M bool :=
           | Some (EStat isdir size ct at_ mt) =>
               if hidden n then dir_loop k cfg path else
               r <- send_msg cfg C19_DirPacket C19_ADirectory 0 (46 + Zlength n) (find_data isdir size ct at_ mt n) ;;
-              if negb r then (fs_void FClosedir ;;; ret false) else dir_loop k cfg path
+              if negb r then (close_dir ;;; ret false) else dir_loop k cfg path
           | Some EFail => dir_loop k cfg path
           | _ => emit ModelErr ;;; ret false
           end
@@ -288,15 +297,16 @@ Definition send_dir_content (cfg : config) (length : Z) (buffer : str) : M bool 
       match d with
       | Some EFail => send_msg cfg C19_DirPacket C19_ADirectory 0 0 []
       | Some EOk =>
+          mark_dir_open ;;;
           r <- send_msg cfg C19_DirPacket C19_ADirectory 0 length buffer ;;
           if negb r then
             (* before commit 8230228 the function returned without closedir(): the directory stream was lost *)
-            ((if fix_f7b cfg then fs_void FClosedir else (s <- get_st ;; set_st (upd_lost s))) ;;; ret false)
+            ((if fix_f7b cfg then close_dir else (s <- get_st ;; set_st (upd_dir false (upd_lost s)))) ;;; ret false)
           else
           w <- (fun w => (List.length (w_env w), w)) ;;
           l <- dir_loop (S w) cfg path ;;
           if negb l then ret false else
-          fs_void FClosedir ;;;
+          close_dir ;;;
           send_msg cfg C19_DirPacket 0 0 0 []
       | _ => emit ModelErr ;;; ret false
       end
@@ -608,7 +618,7 @@ Definition tight_target (fix_f19 : bool) (registered enabled view_only : bool) (
 (* ------------------------------------------------------------------ running from a fresh world *)
 Definition st0 : xstate :=
   {| fd_open := false; sending := false; receiving := false; compression := false; sock_open := true; out_locked := false;
-     lost_fds := 0 |}.
+     lost_fds := 0; dir_open := false |}.
 Definition mk_world (perms : list bool) (dflt : bool) (envs : list env_ans) (input : str) (st : xstate) : world :=
   {| w_perm := perms; w_perm_dflt := dflt; w_env := envs; w_in := input; w_ev := []; w_st := st |}.
 
